@@ -841,6 +841,8 @@ impl<T> FastVec<T> {
         crate::zipora_verify_le!(self.len, self.cap);
 
         if src.is_empty() {
+            // the content becomes a copy of the (empty) source; T: Copy, nothing to drop
+            self.len = 0;
             return Ok(());
         }
 
